@@ -415,12 +415,18 @@ func qualPkg(mod, s string) string {
 // writeReplay writes the replay file for the first failed obligation (and a
 // summary of the others). It returns whether a failing input was reproduced on
 // the real code.
-func writeReplay(p *Prog, prop, dir string, first failure, all []failure, repo string, timeout int) (string, bool) {
-	path := filepath.Join(dir, fileSafe(first.obl.Name)+".txt")
+func writeReplay(p *Prog, prop, dir string, first failure, all []failure, repo string, timeout int) (path string, replayed bool) {
+	path = filepath.Join(dir, fileSafe(first.obl.Name)+".txt")
+	defer func() {
+		// a problem while extracting a counterexample must not hide the violation itself
+		if r := recover(); r != nil {
+			_ = os.WriteFile(path, []byte(fmt.Sprintf("property: %s\nfailed obligation: %s\nclause: %s\n(counterexample extraction failed: %v)\n", prop, first.obl.Name, first.obl.Desc, r)), 0o644)
+			replayed = false
+		}
+	}()
 	var b strings.Builder
 	fmt.Fprintf(&b, "property: %s\nfailed obligation: %s\nkind: %s\nclause: %s\nstatus: %s (solver %s, %d ms)\n", prop, first.obl.Name, first.obl.Kind, first.obl.Desc, first.reason, first.obl.Solver, first.obl.Ms)
 	fmt.Fprintf(&b, "meaning: the verifier could not prove this obligation from the current source of %s; it was provable on the tree the contracts were written for.\n\n", first.obl.Fn)
-	replayed := false
 	if first.vc != nil {
 		q := first.vc.query(first.obl, first.vc.prelude())
 		qpath := filepath.Join(dir, fileSafe(first.obl.Name)+".smt2")
